@@ -63,7 +63,13 @@ def main(argv=None):
     a = ap.parse_args(argv)
     if VERIF not in sys.path:
         sys.path.insert(0, VERIF)
-    rc = run_property(a.prop, a.tier, selftest=not a.no_selftest)
+    try:
+        rc = run_property(a.prop, a.tier, selftest=not a.no_selftest)
+    except BaseException as e:      # a traceback would exit 1 and read as a violation: a broken analyser is exit 2
+        if isinstance(e, (SystemExit, KeyboardInterrupt)):
+            raise
+        print("ANALYSIS-ERROR property=%s rule=internal reason=%s: %s" % (a.prop, type(e).__name__, e))
+        rc = 2
     sys.stdout.flush()
     sys.exit(rc)
 
